@@ -10,6 +10,7 @@ import (
 	z "github.com/Oudwins/zog"
 	"github.com/Oudwins/zog/conf"
 	"github.com/Oudwins/zog/i18n"
+	"github.com/Oudwins/zog/internals"
 	"github.com/Oudwins/zog/i18n/en"
 	"github.com/Oudwins/zog/i18n/es"
 	"github.com/Oudwins/zog/zconst"
@@ -146,6 +147,9 @@ func genC10(r *Rng, tier string) *World {
 		front = "map"
 		flat = false
 	}
+	if front == "map" {
+		AddEmptyZogTag(r, root, 0.12)
+	}
 	if flat {
 		// flat sources: one level of scalar / list-of-scalar fields
 		var fs []*Field
@@ -225,6 +229,9 @@ func genC10(r *Rng, tier string) *World {
 				if len(v.M) == 0 {
 					v.M = append(v.M, KV{"zz_unused", VS("x")})
 				}
+			}
+			if front == "map" {
+				v = NonEmptyRecords(root, v)
 			}
 			op.Input = v
 			switch front {
@@ -567,12 +574,39 @@ func catalogue() []cell {
 }
 
 // "i18n:<default language>:<language this execution asks for>[:<custom language key>]"
-var fmtConfigs = []string{"default", "i18n:en:", "i18n:en:es", "i18n:en:en", "i18n:es:", "i18n:en:xx", "i18n:es:xx", "custom", "i18n:en:es:locale", "i18n:es:en:locale"}
+// "i18nalt:..." installs other texts for the same languages (every template ends in " [v2]").
+var fmtConfigs = []string{"default", "i18n:en:", "i18n:en:es", "i18n:en:en", "i18n:es:", "i18n:en:xx", "i18n:es:xx", "custom", "i18n:en:es:locale", "i18n:es:en:locale",
+	"i18nalt:en:", "i18nalt:en:es", "i18nalt:es:en", "i18nalt:es:xx"}
+
+var altLangMaps = func() map[string]zconst.LangMap {
+	out := map[string]zconst.LangMap{}
+	for lang, src := range map[string]zconst.LangMap{"en": en.Map, "es": es.Map} {
+		cp := zconst.LangMap{}
+		for t, codes := range src {
+			cp[t] = map[zconst.ZogIssueCode]string{}
+			for c, msg := range codes {
+				cp[t][c] = msg + " [v2]"
+			}
+		}
+		out[lang] = cp
+	}
+	return out
+}()
+
+func langMapsOf(cfg string) map[string]zconst.LangMap {
+	if strings.HasPrefix(cfg, "i18nalt:") {
+		return altLangMaps
+	}
+	return map[string]zconst.LangMap{"en": en.Map, "es": es.Map}
+}
 
 func genC11(r *Rng, tier string) *World {
 	w := &World{Prop: "C11", Cfg: DrawDecCfg(r), Params: map[string]int{}}
 	w.Cfg.PoolMode = Pick(r, []string{"lifo", "random", "oldest", "mix"})
 	w.Params["fmt"] = r.Intn(len(fmtConfigs))
+	if r.P(0.4) {
+		w.Params["fmt0"] = r.Intn(len(fmtConfigs))
+	}
 	var dirty []Op
 	mkDirty := func(si int) {
 		c := DrawGenCfg(r, "parse")
@@ -658,7 +692,7 @@ func genC11(r *Rng, tier string) *World {
 		op := &w.Tasks[0][i]
 		if op.Schema == 0 && (op.Kind == "parse" || op.Kind == "validate") {
 			f := fmtConfigs[w.Params["fmt"]]
-			if strings.HasPrefix(f, "i18n:") {
+			if strings.HasPrefix(f, "i18n:") || strings.HasPrefix(f, "i18nalt:") {
 				parts := strings.Split(f, ":")
 				key := "lang"
 				if len(parts) > 3 {
@@ -696,13 +730,13 @@ func installFormatter(cfg string) {
 	switch {
 	case cfg == "custom":
 		conf.IssueFormatter = func(e *z.ZogIssue, c z.Ctx) { e.SetMessage("GLOBAL:" + e.Code) }
-	case strings.HasPrefix(cfg, "i18n:"):
+	case strings.HasPrefix(cfg, "i18n:"), strings.HasPrefix(cfg, "i18nalt:"):
 		parts := strings.Split(cfg, ":")
 		def := parts[1]
 		if len(parts) > 3 {
-			i18n.SetLanguagesErrsMap(map[string]zconst.LangMap{"en": en.Map, "es": es.Map}, def, i18n.WithLangKey(parts[3]))
+			i18n.SetLanguagesErrsMap(langMapsOf(cfg), def, i18n.WithLangKey(parts[3]))
 		} else {
-			i18n.SetLanguagesErrsMap(map[string]zconst.LangMap{"en": en.Map, "es": es.Map}, def)
+			i18n.SetLanguagesErrsMap(langMapsOf(cfg), def)
 		}
 	default:
 		conf.IssueFormatter = conf.DefaultIssueFormatter
@@ -714,7 +748,14 @@ func runC11(x *X) *Violation {
 	cfg := fmtConfigs[w.P("fmt")%len(fmtConfigs)]
 	saved := conf.IssueFormatter
 	defer func() { conf.IssueFormatter = saved }()
-	installFormatter(cfg)
+	// the calls on the other schema run under an *earlier* global configuration; the observed calls under the one that is
+	// installed when they run (a configuration is whatever it is at that moment, not what earlier calls rendered with)
+	cfg0 := cfg
+	if _, ok := w.Params["fmt0"]; ok {
+		cfg0 = fmtConfigs[w.P("fmt0")%len(fmtConfigs)]
+	}
+	installFormatter(cfg0)
+	switched := cfg0 == cfg
 	if cfg != "default" {
 		x.Faults["cfg_swap"]++
 	}
@@ -725,6 +766,11 @@ func runC11(x *X) *Violation {
 		op := &w.Tasks[0][i]
 		if op.Kind != "parse" && op.Kind != "validate" {
 			continue
+		}
+		if op.Schema == 0 && !switched {
+			installFormatter(cfg)
+			switched = true
+			x.Faults["cfg_swap_between_calls"]++
 		}
 		tag := "0:" + strconv.Itoa(i)
 		res := x.Exec(tag, op)
@@ -742,7 +788,7 @@ func runC11(x *X) *Violation {
 		// which language map applies to this execution?
 		var lm zconst.LangMap
 		switch {
-		case strings.HasPrefix(cfg, "i18n:"):
+		case strings.HasPrefix(cfg, "i18n:"), strings.HasPrefix(cfg, "i18nalt:"):
 			parts := strings.Split(cfg, ":")
 			lang := parts[1]
 			key := "lang"
@@ -754,7 +800,7 @@ func runC11(x *X) *Violation {
 					lang = o.Val.S
 				}
 			}
-			lm = map[string]zconst.LangMap{"en": en.Map, "es": es.Map}[lang]
+			lm = langMapsOf(cfg)[lang]
 		case cfg == "default":
 			lm = en.Map
 		}
@@ -774,6 +820,23 @@ func runC11(x *X) *Violation {
 		if w.P("decode") == 1 {
 			if len(res.Issues) != 1 {
 				return &Violation{Class: "C11/decode-failure-issue-count", Detail: fmt.Sprintf("undecodable body produced %v", res.PCTs())}
+			}
+			// the same JSON factory handed to a second execution that brings its own formatter: the body is spent, so this
+			// is again one invalid_json issue - worded by *this* execution's formatter
+			if f, ok := res.data.(internals.DpFactory); ok && res.Issues[0].Code == "invalid_json" && !stamp {
+				o2 := *op
+				o2.Arg = "given"
+				o2.Opts = append(append([]OptSpec(nil), op.Opts...), OptSpec{K: "fmt", Fmt: "stamp"})
+				x.given = f
+				res2 := x.Exec(tag+"again", &o2)
+				x.given = nil
+				if res2.Panic != "" {
+					return &Violation{Class: "C11/panic mode=parse", Detail: "second use of a JSON factory: " + res2.Panic}
+				}
+				if len(res2.Issues) != 1 || res2.Issues[0].Code != "invalid_json" || res2.Issues[0].Msg != "EXEC:invalid_json" {
+					return &Violation{Class: "C11/execution-formatter-not-used why=decode-again", Detail: fmt.Sprintf("second execution with the same (spent) JSON factory and its own formatter: %v", res2.Fulls())}
+				}
+				x.Probes["decode_factory_reused"]++
 			}
 		}
 		if w.Family == "catalogue" && w.P("decode") == 0 && len(res.Issues) != 1 {
